@@ -17,6 +17,7 @@ import (
 )
 
 type verifRollWorld struct {
+	replicas   int // 0 = all names
 	gensel     bool
 	w          *env.World
 	pc         *verifPC
@@ -34,8 +35,13 @@ type verifRollWorld struct {
 func verifRollHook(r *verifRollWorld) *verifHook {
 	return &verifHook{enabled: true, fn: func(req *v1.CompositeHookRequest) (*v1.CompositeHookResponse, error) {
 		x, _, _ := unstructured.NestedString(req.Parent.Object, "spec", "x")
+		// spec.n (when present) is the replica count: the first n names are desired
+		want := r.names
+		if n, found, _ := unstructured.NestedInt64(req.Parent.Object, "spec", "n"); found && int(n) < len(want) {
+			want = want[:n]
+		}
 		var kids []*unstructured.Unstructured
-		for _, n := range r.names {
+		for _, n := range want {
 			kids = append(kids, r.child(n, x))
 		}
 		return &v1.CompositeHookResponse{Children: kids, Status: map[string]interface{}{"phase": "ok"}}, nil
@@ -90,6 +96,9 @@ func verifNewRollWorldSel(namespaced, gensel bool, method string, names []string
 
 func (r *verifRollWorld) spec(x string) map[string]interface{} {
 	sp := map[string]interface{}{"x": x}
+	if r.replicas > 0 {
+		sp["n"] = int64(r.replicas)
+	}
 	if !r.gensel {
 		sp["selector"] = map[string]interface{}{"matchLabels": map[string]interface{}{"app": "x"}}
 		// labels for orphaned-revision lookup (see newControllerRevision)
